@@ -488,7 +488,8 @@ class EditStreamDefaults(HTMLHandlerBase):
         if current_stream.defaults is None:
             options = defaults
         else:
-            options = defaults.clone(**current_stream.defaults)
+            options = defaults.clone(
+                **OptionsRepository.parse_stored_options(current_stream.defaults))
         field_choices = {
             'representation': [
                 dict(value=mf.name, title=mf.name) for mf in current_stream.media_files],
